@@ -435,7 +435,17 @@ pub(super) fn translate_literal(l: Literal, ctx: &Context) -> Result<sql_ast::Ex
             sql_ast::Expr::Value(Value::SingleQuotedString(s).into())
         }
         Literal::Boolean(b) => sql_ast::Expr::Value(Value::Boolean(b).into()),
-        Literal::Float(f) => sql_ast::Expr::Value(Value::Number(format!("{f:?}"), false).into()),
+        Literal::Float(f) => {
+            // A spelling such as `1e400` is a valid number whose binary64 value is
+            // infinite; `{f:?}` would print the word `inf`, which no database reads
+            // as a number.
+            if !f.is_finite() {
+                return Err(Error::new_simple(
+                    "float literal is out of range: its value is not a finite 64-bit float",
+                ));
+            }
+            sql_ast::Expr::Value(Value::Number(format!("{f:?}"), false).into())
+        }
         Literal::Integer(i) => sql_ast::Expr::Value(Value::Number(format!("{i}"), false).into()),
         Literal::Date(value) => translate_datetime_literal(sql_ast::DataType::Date, value, ctx),
         Literal::Time(value) => translate_datetime_literal(
